@@ -534,6 +534,12 @@ pub async fn check_promotion(
         } else {
             "the promoted leader starts empty although the follower had data"
         }
+    } else if !fv.registrations.iter().all(|(k, v)| lv.registrations.get(k) == Some(v))
+        && recovered_candidates(&with_follower_regs).iter().any(|w| w == &nv.user)
+    {
+        // the follower still held registrations the leader no longer had: those clients had left
+        // (their grave goods and last wills were executed then) or had withdrawn them
+        "the promoted leader executed registrations that had ended before the leader was lost"
     } else if recovered_candidates(&with_follower_regs).iter().any(|w| w == &nv.user)
         || (p.rejoin_race.is_some() && (nv.user == fv.user || nv.user == lv.user))
     {
